@@ -54,7 +54,7 @@ def run(prog: Program, rep: Report, tier: str) -> None:
     rep.rule("R3.7", "the configured identity is what the frames carry: _device_id / _device_key / _port / _ip_address are stored once, in SwitcherApi.__init__, from the same-named parameter unchanged "
                      "(no normalisation, re-formatting or later re-assignment; shares its sweep with C02 R2.5)", 4)
     rep.claims_instance_state = "R3.3"       # a class-level container mutated through instances is state shared by all clients
-    rep.rule("R3.3", "no shared or lingering state: the only attribute stores of the API classes are the 7 instance attributes in __init__/connect/disconnect; no global/nonlocal, no cache decorator, no store on a module/class/other object, no mutated mutable default or module-level container in the api/tools modules", 10)
+    rep.rule("R3.3", "no shared or lingering state: the only attribute stores of the API classes are the 7 instance attributes in __init__/connect/disconnect; no global/nonlocal, no cache decorator, no store on a module/class/other object, no mutated mutable default or module-level container in the api/tools modules", 10, structural=True)        # (a sweep of the syntax tree: decisive whatever the interpreter could follow)
     rep.rule("R3.4", "login flavour: type-1 operations send the login-key frame, type-2 operations the device-id frame; _login selects the type-2 frame exactly for the DeviceType members with protocol_type == 2", 12 + 10)
     rep.rule("R3.6", "each reply is consumed whole: every reader.read(n) on an operation's path asks for a constant n >= the longest reply of the protocol (spec/reply_layout.json whole_reply_read), so no bytes of one reply are left in the stream to be taken for the next operation's login reply (and its session id)", 12)
     rep.rule("R3.5", "frame sequence per operation is fixed: login.cmd for simple operations; login.(state.main)?.swing? with 2..4 frames for thermostat control; shorter sequences only on raising paths", 12)
@@ -230,15 +230,19 @@ def memo_rule(prog: Program, rep: Report) -> None:
         rep.check(not bad, "R3.2", f"{fi.qualname} not memoised", where, f"{fi.qualname} is decorated with {bad}: clock/session would be reused across operations", key=f"R3.2|memo|{fi.qualname}")
 
 
-def _argument_pure(fi: Any) -> bool:
+def _argument_pure(fi: Any, prog: Optional[Program] = None, _depth: int = 0, _seen: Optional[Set[str]] = None) -> bool:
     """A module-level function (no self) whose body reads nothing but its own parameters, local names and builtins,
     stores nothing outside its locals and is not a generator: its result is a function of its arguments alone, so
     remembering it per argument cannot carry a clock reading, a session or any instance state from one operation
     into another (what R3.2 / R3.3 guard against).  Whether the remembered object is mutated by a caller is the
     interpreter's business (the frozen "memo:" objects, DESIGN 2.3)."""
     import builtins
-    if fi.cls is not None:
+    if fi.cls is not None and _depth == 0:
         return False
+    _seen = set() if _seen is None else _seen
+    if fi.key in _seen:
+        return True
+    _seen.add(fi.key)
     a = fi.node.args
     names = {x.arg for x in a.posonlyargs + a.args + a.kwonlyargs} | ({a.vararg.arg} if a.vararg else set()) | ({a.kwarg.arg} if a.kwarg else set())
     body = ast.Module(body=list(fi.node.body), type_ignores=[])      # (not the decorators / annotations of the def itself)
@@ -253,7 +257,100 @@ def _argument_pure(fi: Any) -> bool:
                 return False        # attribute / item stores
     for n in ast.walk(body):
         if isinstance(n, ast.Name) and isinstance(n.ctx, ast.Load) and n.id not in names and not hasattr(builtins, n.id):
+            # a module-level name: fine when it is a constant nobody changes, an imported library name, or a function /
+            # class of the package that is itself a function of its arguments only
+            if prog is None or _depth >= 3:
+                return False
+            try:
+                r = prog.resolve_name(fi.module, n.id)
+            except Exception:  # noqa: BLE001
+                r = None
+            if r is None:
+                return False
+            if r[0] == "enum" or (r[0] in ("ext", "extmod") and _pure_library_name(str(r[1]))):
+                continue
+            if r[0] in ("ext", "extmod"):
+                return False          # a library name that may read the clock, the zone, the environment, a random source ...
+            if r[0] == "const":
+                try:
+                    prog.fold(r[1], r[1].constants[r[2]])
+                except Exception:  # noqa: BLE001
+                    return False
+                if any((isinstance(x, (ast.Assign, ast.AugAssign, ast.Delete)) and any(isinstance(sub, (ast.Subscript, ast.Attribute)) and isinstance(getattr(sub, "value", None), ast.Name) and sub.value.id == r[2]
+                                                                                       for t_ in (x.targets if isinstance(x, (ast.Assign, ast.Delete)) else [x.target]) for sub in ast.walk(t_)))
+                       or (isinstance(x, ast.Call) and isinstance(x.func, ast.Attribute) and x.func.attr in MUTATORS and isinstance(x.func.value, ast.Name) and x.func.value.id == r[2])
+                       or (isinstance(x, ast.Global) and r[2] in x.names) for x in ast.walk(r[1].tree)):
+                    return False
+                continue
+            if r[0] == "func":
+                if any(d_.split("(")[0].split(".")[-1] in CACHE_DECOS for d_ in r[1].decorators) or not _argument_pure(r[1], prog, _depth + 1, _seen):
+                    return False
+                continue
+            if r[0] == "class":
+                for m_ in list(r[1].methods.values()) + list(r[1].properties.values()):
+                    sub_names_ok = _argument_pure(m_, prog, _depth + 1, _seen)
+                    if not sub_names_ok:
+                        # methods may store on / read their own instance: allow attribute stores on the first parameter
+                        return _class_self_contained(r[1], prog, _depth + 1, _seen)
+                continue
             return False
+    return True
+
+
+_PURE_LIBRARY = ("binascii", "struct", "itertools", "operator", "functools", "typing", "math", "enum", "dataclasses", "collections", "string", "re", "textwrap",
+                 "datetime.timedelta", "ipaddress", "socket.inet_ntoa", "socket.inet_aton", "codecs", "zlib", "abc", "types")
+
+
+def _pure_library_name(q: str) -> bool:
+    """Library names whose functions are functions of their arguments (no clock, zone, environment, randomness, I/O)."""
+    return any(q == p_ or q.startswith(p_ + ".") for p_ in _PURE_LIBRARY)
+
+
+def _class_self_contained(ci: Any, prog: Program, depth: int, seen: Set[str]) -> bool:
+    """Every method of the class works on its own instance and arguments only: attribute stores go to `self`, other
+    names are constants, library names or self-contained functions / classes (a small value class, e.g. a running
+    checksum)."""
+    import builtins
+    for m_ in list(ci.methods.values()) + list(ci.properties.values()):
+        a = m_.node.args
+        names = {x.arg for x in a.posonlyargs + a.args + a.kwonlyargs}
+        selfname = m_.params[0] if m_.params else None
+        body = ast.Module(body=list(m_.node.body), type_ignores=[])
+        for n in ast.walk(body):
+            if isinstance(n, ast.Name) and isinstance(n.ctx, ast.Store):
+                names.add(n.id)
+            if isinstance(n, (ast.Yield, ast.YieldFrom, ast.Global, ast.Nonlocal, ast.Await)):
+                return False
+            if isinstance(n, (ast.Assign, ast.AugAssign, ast.AnnAssign, ast.Delete)):
+                tg = n.targets if isinstance(n, (ast.Assign, ast.Delete)) else [n.target]
+                for t_ in tg:
+                    if isinstance(t_, ast.Attribute) and isinstance(t_.value, ast.Name) and t_.value.id == selfname:
+                        continue
+                    if not isinstance(t_, (ast.Name, ast.Tuple, ast.List)):
+                        return False
+        for n in ast.walk(body):
+            if isinstance(n, ast.Name) and isinstance(n.ctx, ast.Load) and n.id not in names and not hasattr(builtins, n.id):
+                try:
+                    r = prog.resolve_name(m_.module, n.id)
+                except Exception:  # noqa: BLE001
+                    r = None
+                if r is None:
+                    return False
+                if r[0] == "enum" or (r[0] in ("ext", "extmod") and _pure_library_name(str(r[1]))):
+                    continue
+                if r[0] in ("ext", "extmod"):
+                    return False
+                if r[0] == "const":
+                    try:
+                        prog.fold(r[1], r[1].constants[r[2]])
+                    except Exception:  # noqa: BLE001
+                        return False
+                    continue
+                if r[0] == "class" and (r[1] is ci or depth < 3 and _class_self_contained(r[1], prog, depth + 1, seen)):
+                    continue
+                if r[0] == "func" and depth < 3 and _argument_pure(r[1], prog, depth + 1, seen):
+                    continue
+                return False
     return True
 
 
@@ -267,7 +364,7 @@ def state_sweep(prog: Program, rep: Report, visited: Optional[Set[str]] = None) 
             where0 = f"{m.relpath}:{fi.node.lineno} {fi.qualname}"
             findings: List[Tuple[int, str]] = []
             for d in fi.decorators:
-                if any(x in d.split("(")[0].split(".")[-1] for x in CACHE_DECOS) and not _argument_pure(fi):
+                if any(x in d.split("(")[0].split(".")[-1] for x in CACHE_DECOS) and not _argument_pure(fi, prog):
                     findings.append((fi.node.lineno, f"decorator @{d} memoises results across calls"))
             mutable_defaults = {k for k, v in fi.defaults().items() if isinstance(v, (ast.List, ast.Dict, ast.Set)) or (isinstance(v, ast.Call) and ast.unparse(v.func) in ("set", "list", "dict"))}
             selfname = fi.params[0] if fi.cls is not None and fi.params else None
